@@ -137,7 +137,7 @@ theorem raise_ends_run (step : RunState → List Ev × Outcome × RunState) (tEn
 
 /-! ### the written program vs. the flat statements: programs without `if_` / `else_` -/
 
-theorem flat_range'_eq_fold (F : Funs) : ∀ (l pre : List Stmt) (σ : Store),
+theorem flat_rangeFrom_eq_fold (F : Funs) : ∀ (l pre : List Stmt) (σ : Store),
     flatExec F (pre ++ l) (List.range' pre.length l.length) σ = l.foldl (fun σ s => exec F s σ) σ := by
   intro l
   induction l with
@@ -156,7 +156,7 @@ theorem flat_range'_eq_fold (F : Funs) : ∀ (l pre : List Stmt) (σ : Store),
 
 theorem flat_range_eq_fold (F : Funs) (l : List Stmt) (σ : Store) :
     flatExec F l (List.range l.length) σ = l.foldl (fun σ s => exec F s σ) σ := by
-  have := flat_range'_eq_fold F l [] σ
+  have := flat_rangeFrom_eq_fold F l [] σ
   simpa [List.range_eq_range'] using this
 
 theorem run_straight (ks : List Kind) : ∀ (st : BState), st.condStack = [] → st.failed = none →
